@@ -1,9 +1,220 @@
-(** C18 - property theorems (work in progress). *)
-From Coq Require Import List NArith Reals.
-From LinfaVerif Require Import Common.Num Common.NdSum C18.Model C18.Check C18.Proofs.
+(** C18 - property theorems (statements only; proofs are in C18/Proofs.v).
+
+    Pattern B (certified per run): the checker [pca_checks] (C18/Check.v) is evaluated by vm_compute in
+    exact dyadic-rational arithmetic (DQ_ops) on the implementation's output.  Theorem 1 says that this
+    evaluation IS the real-number checker on the embedded data; theorems 2-10 say what each accepted
+    conjunct means over R; theorems 11-13 turn the exact LDL^T deflation certificate into the statement
+    "no orthonormal k-frame retains more variance" (Ky Fan).
+    Pattern A (all inputs): theorems 14-21 are about the Gallina model of pca.rs at R_ops.
+
+    Notation: [bil u C v] = u^T C v, [cov oR n p X] the sample covariance (divisor n-1) of the rows of X,
+    [lams_of oR n sg] = sigma_i^2/(n-1), [scs_of] = 1 (plain) or lambda_i (whitened embedding: the unit
+    direction is v_i = sqrt(sc_i) w_i), [tolR e] = 2^-e. *)
+From Coq Require Import List NArith ZArith Reals Bool.
+From LinfaVerif Require Import Common.Num Common.NdSum Common.QF Common.LDL C18.Model C18.Check C18.Proofs.
 Import ListNotations.
 Local Open Scope R_scope.
 
-Theorem ratio_times_sum_tmp : forall (m : pca R) (s : R), s <> 0 ->
-  map (fun e => e / s * s) (explained_variance R_ops m) = explained_variance R_ops m.
-Proof. exact ratio_times_sum. Qed.
+(** 1. exact dyadic evaluation = the real-number checker on the embedded data *)
+Theorem exact_arithmetic_is_real_checker :
+  forall n p k whiten (X : list (list dq)) mu sg W ev evr Qs invs,
+  let ka := pca_checks DQ_ops n p k whiten X mu sg W ev evr Qs invs in
+  let kb := pca_checks R_ops n p k whiten (map (map D2R) X) (map D2R mu) (map D2R sg) (map (map D2R) W)
+                       (map D2R ev) (map D2R evr) (map (map D2R) Qs) (map (map D2R) invs) in
+  k_mean ka = k_mean kb /\ k_shape ka = k_shape kb /\ k_sigma ka = k_sigma kb /\ k_orth ka = k_orth kb /\
+  k_projcov ka = k_projcov kb /\ k_ev ka = k_ev kb /\ k_ratio ka = k_ratio kb /\
+  k_roundtrip ka = k_roundtrip kb /\ k_resid ka = k_resid kb /\ k_coefs ka = k_coefs kb /\
+  k_bound ka = k_bound kb /\ D2R (k_T ka) = k_T kb /\ map (map D2R) (k_M ka) = k_M kb.
+Proof. exact (hom_pca_checks D2R DQ_ops R_ops D2R_hom). Qed.
+
+(** 2. the reported mean is the column mean (up to the rounding of a float summation) *)
+Theorem mean_certified : forall n p X mu, mean_ok R_ops n p X mu = true ->
+  length mu = p /\
+  forall j, (j < p)%nat ->
+    let c := column R_ops j X in
+    Rabs (nth j mu 0 - Rsum c / INR (N.to_nat n)) <= tolR 45 * Rsum (map Rabs c) / INR (N.to_nat n).
+Proof. exact mean_ok_sound. Qed.
+
+(** 3. singular values are positive and ordered non-increasingly *)
+Theorem singular_values_ordered : forall sg, sigma_ok R_ops sg = true ->
+  Forall (fun s => 0 < s) sg /\ forall i, (S i < length sg)%nat -> nth (S i) sg 0 <= nth i sg 0.
+Proof. exact sigma_ok_sound. Qed.
+
+(** 4. the components are orthonormal directions (whitened ones after undoing the scale) *)
+Theorem components_orthonormal : forall scs W, orth_ok R_ops scs W = true ->
+  forall i j, (i < length W)%nat -> (j < length W)%nat ->
+  let d := Rdot (nth i W []) (nth j W []) in
+  (i = j -> Rabs (nth i scs 0 * d - 1) <= tolR 20) /\
+  (i <> j -> nth i scs 0 * nth j scs 0 * (d * d) <= tolR 20 * tolR 20).
+Proof. exact orth_ok_sound. Qed.
+
+(** 5. projecting the centred training data gives uncorrelated coordinates with variances
+       sigma_i^2/(n-1); for a whitened embedding (sc_i = lambda_i) this reads w_i^T C w_i = 1 and
+       w_i^T C w_j = 0 up to 2^-20 T / lambda *)
+Theorem projected_covariance_diagonal : forall T lams scs C W, length lams = length W ->
+  projcov_ok R_ops T lams scs (G_of R_ops W (CW_of R_ops C W)) = true ->
+  forall i j, (i < length W)%nat -> (j < length W)%nat ->
+  let g := bil (nth i W []) C (nth j W []) in
+  (i = j -> Rabs (nth i scs 0 * g - nth i lams 0) <= tolR 20 * T) /\
+  (i <> j -> nth i scs 0 * nth j scs 0 * (g * g) <= (tolR 20 * T) * (tolR 20 * T)).
+Proof. exact projcov_ok_sound. Qed.
+
+(** 6. each component is an eigen-direction of the sample covariance: |C w - lambda w|_inf small *)
+Theorem eigen_residual_small : forall T lams C W, length lams = length W ->
+  resid_ok R_ops T lams W (CW_of R_ops C W) = true ->
+  forall i a, (i < length W)%nat -> (a < length C)%nat -> (a < length (nth i W []))%nat ->
+  Rabs (Rdot (nth a C []) (nth i W []) - nth i lams 0 * nth a (nth i W []) 0)
+    <= tolR 23 * T * Rsum (map Rabs (nth i W [])).
+Proof. exact resid_ok_sound. Qed.
+
+(** 7. explained_variance is sigma^2/(n-1) *)
+Theorem explained_variance_certified : forall lams ev, ev_ok R_ops lams ev = true ->
+  length ev = length lams /\
+  forall i, (i < length lams)%nat -> Rabs (nth i ev 0 - nth i lams 0) <= tolR 50 * nth i lams 0.
+Proof. exact ev_ok_sound. Qed.
+
+(** 8. the ratios are non-negative, proportional to the explained variances, and sum to one *)
+Theorem ratios_certified : forall ev evr, ratio_ok R_ops ev evr = true ->
+  length evr = length ev /\
+  (forall i, (i < length ev)%nat ->
+     0 <= nth i evr 0 /\ Rabs (nth i evr 0 * Rsum ev - nth i ev 0) <= tolR 45 * Rsum ev) /\
+  (length ev <> 0%nat -> Rabs (Rsum evr - 1) <= tolR 45).
+Proof. exact ratio_ok_sound. Qed.
+
+(** 9. transform followed by inverse transform is the orthogonal projection about the mean
+       (the identity when all p components are present) on every explored row *)
+Theorem roundtrip_certified : forall p scs W mu Qs invs, roundtrip_ok R_ops p scs W mu Qs invs = true ->
+  length invs = length Qs /\
+  forall t, (t < length Qs)%nat ->
+    let x := nth t Qs [] in let inv := nth t invs [] in
+    let P := projection R_ops p scs W mu x in
+    let scale := Rsum (map Rabs (vsub R_ops x mu)) in
+    length inv = p /\ length x = p /\
+    (forall j, (j < p)%nat -> (j < length P)%nat -> (j < length mu)%nat ->
+       Rabs (nth j inv 0 - nth j P 0) <= tolR 20 * (scale + Rabs (nth j mu 0))) /\
+    (length W = p -> forall j, (j < p)%nat -> (j < length mu)%nat ->
+       Rabs (nth j inv 0 - nth j x 0) <= tolR 20 * (scale + Rabs (nth j mu 0))).
+Proof. exact roundtrip_ok_sound. Qed.
+
+(** 10. the quadratic form of the certificate matrix:
+        x^T M x = shift |x|^2 - x^T C x + sum_i c_i (w_i . x)^2 *)
+Theorem certificate_matrix_form : forall p C shift cf W x,
+  rect p p C -> Forall (fun w => length w = p) W -> length x = p ->
+  Rquad (Mlead R_ops p C shift cf W) x = shift * Rdot x x - Rquad C x + r1sum cf W x.
+Proof. exact Rquad_Mlead. Qed.
+
+(** 11. the deflation certificate (coarse-grid LDL^T + exact diagonally dominant remainder) proves
+        positive semi-definiteness of the exact matrix *)
+Theorem deflation_certificate_sound : forall p T (M : list (list dq)),
+  lead_psd p T M = true -> rect p p (map (map D2R) M) ->
+  forall x, length x = p -> 0 <= Rquad (map (map D2R) M) x.
+Proof. exact lead_psd_sound. Qed.
+
+(** 12. Ky Fan: a PSD certificate matrix bounds the variance retained by EVERY orthonormal frame *)
+Theorem ky_fan : forall p C shift cf W U,
+  (forall x, length x = p -> 0 <= Rquad (Mlead R_ops p C shift cf W) x) ->
+  rect p p C -> Forall (fun w => length w = p) W -> Forall (fun c => 0 <= c) cf ->
+  orthonormal U -> Forall (fun u => length u = p) U ->
+  retained_by C U <= INR (length U) * shift + Rsum (map2 (fun c w => c * Rdot w w) cf W).
+Proof. exact ky_fan_bound. Qed.
+
+(** 13. hence, for a fit accepted by the checker: no k-dimensional orthogonal projection retains
+        more variance than the returned components (plus (k-m) mu0 for components the solver dropped
+        below its cut-off), up to (k 2^-17 + 2^-20) trace(C) *)
+Theorem leading_subspace_certified :
+  forall n p k whiten (X : list (list dq)) mu sg W ev evr Qs invs,
+  let ks := pca_checks DQ_ops n p k whiten X mu sg W ev evr Qs invs in
+  k_shape ks = true -> k_coefs ks = true -> k_bound ks = true -> lead_psd p (k_T ks) (k_M ks) = true ->
+  let XR := map (map D2R) X in
+  let WR := map (map D2R) W in
+  let C := cov R_ops n p XR in
+  let lams := lams_of R_ops n (map D2R sg) in
+  let scs := scs_of R_ops whiten lams in
+  forall U, orthonormal U -> Forall (fun u => length u = p) U -> length U = N.to_nat k ->
+  retained_by C U <=
+    retained R_ops scs (G_of R_ops WR (CW_of R_ops C WR))
+    + (INR (N.to_nat k) - INR (length sg)) * mu0_of R_ops k lams
+    + (INR (N.to_nat k) * tolR 17 + tolR 20) * trace R_ops C.
+Proof. exact Proofs.leading_subspace_certified. Qed.
+
+(** 14. an empty dataset or an embedding size outside 1..p is an error; everything else reaches the
+        solver and, when it answers, yields a model with the column mean (every arithmetic) *)
+Theorem fit_guards : forall F (o : NumOps F) floor svd cm wh n p k X,
+  (n = 0%N -> fit o floor svd cm wh n p k X = FitErrNotEnoughSamples) /\
+  (n <> 0%N -> (k = 0%N \/ (p < k)%N) -> fit o floor svd cm wh n p k X = FitErrEmbeddingTooSmall k) /\
+  (n <> 0%N -> (1 <= k)%N -> (k <= p)%N ->
+     match svd (centre o X (mean_axis0 o cm n (N.to_nat p) X)) k with
+     | None => fit o floor svd cm wh n p k X = FitErrSolver
+     | Some _ => exists m, fit o floor svd cm wh n p k X = FitOk m /\ nsamples m = n
+                           /\ pmean m = mean_axis0 o cm n (N.to_nat p) X
+     end).
+Proof. exact (@Proofs.fit_guards). Qed.
+
+(** 15. whitening: directions that diagonalise C with variances sigma_i^2/(n-1) become, after the
+        scaling of `fit`, directions along which the projected data has identity covariance *)
+Theorem whitening_identity_covariance : forall (n : N) (C vt : list (list R)) (sg : list R),
+  (2 <= n)%N -> length vt = length sg -> Forall (fun s => 0 < s) sg ->
+  (forall i j, (i < length sg)%nat -> (j < length sg)%nat ->
+     bil (nth i vt []) C (nth j vt []) = if Nat.eqb i j then nth i sg 0 * nth i sg 0 / (INR (N.to_nat n) - 1) else 0) ->
+  let W := whiten_rows R_ops (sqrt R_ops (sub R_ops (of_N R_ops n) (one R_ops))) vt sg in
+  forall i j, (i < length sg)%nat -> (j < length sg)%nat ->
+    bil (nth i W []) C (nth j W []) = if Nat.eqb i j then 1 else 0.
+Proof. exact Proofs.whitening_identity_covariance. Qed.
+
+(** 16. inverse_transform (predict x) = mean + sum_i ((x-mean).w_i / w_i.w_i) w_i, and x minus it is
+        orthogonal to every component: it is the orthogonal projection onto the component subspace
+        about the mean (orthogonal non-zero components, whitened or not) *)
+Theorem roundtrip_is_projection : forall (m : @pca R) (x : list R),
+  let p := length (pmean m) in
+  let W := embedding m in
+  let y := inverse_row R_ops m (predict_row R_ops m x) in
+  orthogonal W -> Forall (fun w => length w = p) W -> length x = p ->
+  y = vadd R_ops (lincomb R_ops p (pcoefs W (vsub R_ops x (pmean m))) W) (pmean m) /\
+  Forall (fun w => Rdot w (vsub R_ops x y) = 0) W.
+Proof. exact Proofs.roundtrip_is_projection. Qed.
+
+(** 17. the round trip is idempotent *)
+Theorem projection_idempotent : forall (m : @pca R) (x : list R),
+  let p := length (pmean m) in
+  let W := embedding m in
+  let P := fun z => inverse_row R_ops m (predict_row R_ops m z) in
+  orthogonal W -> Forall (fun w => length w = p) W -> length x = p ->
+  P (P x) = P x.
+Proof. exact Proofs.projection_idempotent. Qed.
+
+(** 18. and it is the identity on mean + span(components) (the whole space when k = p) *)
+Theorem roundtrip_identity_on_span : forall (m : @pca R) (a : list R),
+  let p := length (pmean m) in
+  let W := embedding m in
+  let x := vadd R_ops (lincomb R_ops p a W) (pmean m) in
+  orthogonal W -> Forall (fun w => length w = p) W -> length a = length W ->
+  inverse_row R_ops m (predict_row R_ops m x) = x.
+Proof. exact Proofs.roundtrip_identity_on_span. Qed.
+
+(** 19. the ratios are exactly proportional to the explained variances and sum to one *)
+Theorem ratio_proportional : forall (m : @pca R),
+  let ev := explained_variance R_ops m in
+  let evr := explained_variance_ratio R_ops m in
+  Rsum ev <> 0 ->
+  length evr = length ev /\ (forall i, nth i evr 0 * Rsum ev = nth i ev 0) /\ Rsum evr = 1.
+Proof. exact Proofs.ratio_proportional. Qed.
+
+(** 20. explained variances are non-negative for n >= 2 ... *)
+Theorem explained_variance_nonneg : forall (m : @pca R), (2 <= nsamples m)%N ->
+  Forall (fun e => 0 <= e) (explained_variance R_ops m).
+Proof. exact ratio_nonneg. Qed.
+
+(** 21. ... and are, by definition of the model, sigma_i^2/(n_samples - 1) *)
+Theorem explained_variance_formula : forall (m : @pca R),
+  explained_variance R_ops m = lams_of R_ops (nsamples m) (sigma m).
+Proof. exact explained_variance_is_lams. Qed.
+
+(** 22. the quantity certified in 5 is the sample covariance of the projected centred training data:
+        u^T C v = sum_t ((x_t - mean).u) ((x_t - mean).v) / (n - 1) *)
+Theorem projected_covariance_is_bilinear_form : forall (n : N) (p : nat) (X : list (list R)) (u v : list R),
+  Forall (fun x => length x = p) X ->
+  let m := emean R_ops (of_N R_ops n) (cols R_ops p X) in
+  let Xc := centre R_ops X m in
+  length m = p ->
+  bil u (cov R_ops n p X) v = cross_moment Xc u v / (INR (N.to_nat n) - 1).
+Proof. exact Proofs.projected_covariance_is_bilinear_form. Qed.
